@@ -27,6 +27,7 @@ type Env struct {
 	resultTypes []types.Type
 	bound       map[string]envVar
 	depth       int
+	loop          *loopInfo // loop whose invariant is being evaluated
 	paramsAtEntry bool                 // in ensures: parameter names denote entry values, other locals their final values
 	fvOverride  map[string]freeVarInfo // free variables of a callee closure, bound at a call / go site
 	facts       *[]*Term // type facts of every heap value read while evaluating (always true of a well-typed heap)
@@ -130,6 +131,18 @@ func (e *Env) lookupLocal(name string) (tv, bool) {
 	fr := e.fr
 	if fr == nil {
 		return tv{}, false
+	}
+	if name == "rangeindex" && e.loop != nil {
+		// the hidden index of the range loop whose invariant is being evaluated
+		for _, in := range e.loop.header.Instrs {
+			if ld, ok := in.(*ssa.UnOp); ok {
+				if a, ok := ld.X.(*ssa.Alloc); ok && a.Comment == "rangeindex" {
+					if v, ok := e.st.cells[a]; ok {
+						return tv{v, types.Typ[types.Int]}, true
+					}
+				}
+			}
+		}
 	}
 	if e.paramsAtEntry {
 		for _, p := range fr.fn.Params {
@@ -753,6 +766,16 @@ func (e *Env) callExpr(x *ECall) tv {
 			return tv{u.convert(e.st, t, r.t0(), bt).(*Term), bt}
 			_ = want
 		}
+	case "constmap":
+		// constmap("KeySort", v): the ghost array mapping every key to v
+		ks, ok := x.Args[0].(*EStr)
+		if !ok {
+			e.fail("constmap(\"Sort\", value)")
+		}
+		_, ksort := u.resolveType(ks.Val, e.pkgPath)
+		v := u.evalTerm(e, x.Args[1])
+		as := ArrSort(ksort, v.Sort)
+		return tv{&Term{fmt.Sprintf("((as const %s) %s)", as, v.S), as}, nil}
 	case "upd":
 		// upd(a, i, v): the array a with a[i] := v (ghost arrays)
 		a := u.evalTerm(e, x.Args[0])
@@ -1128,6 +1151,24 @@ func (u *Unit) evalLoc(env *Env, x Expr, src string) []frameItem {
 			_, gs := u.resolveType(g.GoType, g.PkgPath)
 			u.heapGet(env.st, "G!"+x.Name, gs)
 			return []frameItem{{Map: "G!" + x.Name, Elem: gs, Ptr: ghostPtr, Src: src}}
+		}
+		if env.fr != nil {
+			// a local variable that lives in a heap cell (its address is taken)
+			for _, b := range env.fr.fn.Blocks {
+				for _, in := range b.Instrs {
+					if a, ok := in.(*ssa.Alloc); ok && a.Comment == x.Name && !isCellAlloc(a) {
+						if p, ok := env.fr.regs[a].(*Term); ok {
+							t := ptrElem(a.Type())
+							if _, isS := u.structOf(t); isS {
+								return u.structItems(env, t, p, src)
+							}
+							sort, _ := u.sortOf(t)
+							u.heapGet(env.st, elemMapName(sort), sort)
+							return []frameItem{{Map: elemMapName(sort), Elem: sort, Ptr: p, Src: src}}
+						}
+					}
+				}
+			}
 		}
 		if p, t, ok := env.freeVar(x.Name); ok {
 			if _, isS := u.structOf(t); isS {
